@@ -40,10 +40,15 @@ func (s *unlimitedSchedule) Next() (tx time.Time, ok bool) {
 		s.finish.Store(time.Now().Add(s.duration))
 	})
 	now := time.Now()
-	if now.Before(s.finish.Load()) {
-		return now, true
+	finish := s.finish.Load()
+	if !now.Before(finish) {
+		return finish, false
 	}
-	return s.finish.Load(), false
+	if start := finish.Add(-s.duration); now.Before(start) {
+		// Started in the future, e.g. as not first part of a composite schedule.
+		return start, true
+	}
+	return now, true
 }
 
 func (s *unlimitedSchedule) Left() int {
